@@ -336,7 +336,12 @@ impl Gen {
         if rng.chance(1, 12) {
             return "liquidator".into();
         }
-        World::trader(rng.below(r.w.cfg.n_traders as u64) as usize)
+        let t = World::trader(rng.below(r.w.cfg.n_traders as u64) as usize);
+        if r.w.cfg.prefix_vamms && rng.chance(1, 3) {
+            // the account whose address completes the shorter vAMM address to the longer one's plus this trader's
+            return format!("0{}", t);
+        }
+        t
     }
 
     fn clock(&mut self, rng: &mut Rng) -> Option<(u64, u64)> {
@@ -690,7 +695,11 @@ impl Gen {
         let last = r.model.feed[v].last().map(|x| x.1).unwrap_or(spot).max(1);
         let base = if rng.chance(1, 2) { spot } else { last };
         let pct: i128 = *rng.pick(&[-90i128, -50, -20, -11, -10, -9, -5, -1, 0, 1, 5, 9, 10, 11, 20, 50, 100]);
-        let price = mul_div(base.min(10u128.pow(30)), (100 + pct) as u128, 100).unwrap_or(base).max(1);
+        let mut price = mul_div(base.min(10u128.pow(30)), (100 + pct) as u128, 100).unwrap_or(base).max(1);
+        if rng.chance(1, 50) {
+            // an oracle that reports nothing useful for a while: price zero, or one raw unit
+            price = if rng.chance(1, 2) { 0 } else { 1 };
+        }
         let now = r.w.now();
         let last_ts = r.model.feed[v].last().map(|x| x.0).unwrap_or(0);
         let ts = match rng.below(6) {
@@ -1254,6 +1263,14 @@ impl Gen {
         .max(lt)
         .min(now);
         let owner = r.w.cfg.roles.pf_owner.clone();
+        if r.steps_done == 0 && rng.chance(1, 2) {
+            // the feed is first met empty: a submission by somebody who may not submit (the queries of an empty key are judged)
+            return Step::new("stranger", Op::AppendPrice { vamm: v, price, timestamp: ts });
+        }
+        if rng.chance(1, 40) {
+            // arrays of different lengths: to be refused as a whole
+            return Step::new(&owner, Op::AppendMulti { vamm: v, prices: vec![price.to_string(), (price + 1).to_string()], timestamps: vec![ts] });
+        }
         if rng.chance(1, 6) {
             let ts2 = rng.range(ts, now);
             Step::new(&owner, Op::AppendMulti { vamm: v, prices: vec![price.to_string(), (price + 7).to_string()], timestamps: vec![ts, ts2] })
